@@ -362,7 +362,7 @@ def correlated_keys(fn: ast.FunctionDef, limit=4):
         k, _ = guard_key(test)
         cnt[k] = cnt.get(k, 0) + 1
     keys = [k for k, c in sorted(cnt.items(), key=lambda kv: -kv[1]) if c >= 2]
-    return keys[:limit]
+    return keys[:limit] if limit else keys
 
 
 def definite_assignment(fn: ast.FunctionDef):
@@ -370,11 +370,23 @@ def definite_assignment(fn: ast.FunctionDef):
     A use is reported only if it is unassigned under at least one consistent assignment of the correlated guards."""
     keys = correlated_keys(fn)
     loops = LoopInfo(fn)
-    found = {}
-    for combo in itertools.product([True, False], repeat=len(keys)):
-        assume = dict(zip(keys, combo))
-        for u in DefAssign(fn, assume, set(), loops).run():
-            found.setdefault((u.name, u.node.lineno, u.node.col_offset), u)
+
+    def explore(ks):
+        out = {}
+        for combo in itertools.product([True, False], repeat=len(ks)):
+            assume = dict(zip(ks, combo))
+            for u in DefAssign(fn, assume, set(), loops).run():
+                out.setdefault((u.name, u.node.lineno, u.node.col_offset), u)
+        return out
+    found = explore(keys)
+    if found:
+        # a function with more repeated guards than the enumeration budget: a use stays reported only if it is also unassigned when each
+        # further repeated guard is held consistent (one at a time) - the guard that pairs the definition with the use may be any of them
+        for extra in [k for k in correlated_keys(fn, limit=0) if k not in keys]:
+            more = explore(keys + [extra])
+            found = {k: v for k, v in found.items() if k in more}
+            if not found:
+                break
     return list(found.values())
 
 
